@@ -4,7 +4,8 @@
    calc_rel ties the real document to it through the deltas of the summary. *)
 From Coq Require Import ZArith List Bool Lia.
 Import ListNotations.
-Require Import Grist.Model.ActionLog Grist.Proofs.ActionLog_proofs Grist.Proofs.ActionLog_calc Grist.Proofs.ActionLog_cells Grist.Proofs.ActionLog_frame.
+Require Import Grist.Model.ActionLog Grist.Proofs.ActionLog_proofs Grist.Proofs.ActionLog_calc Grist.Proofs.ActionLog_cells Grist.Proofs.ActionLog_frame
+  Grist.Proofs.ActionLog_flush2.
 Open Scope Z_scope.
 
 Ltac name_cases a b :=
@@ -26,15 +27,103 @@ Notation summary := (summary O).
 Definition redo_ok (s0 g : state) (S : list action) : Prop :=
   forall s1, seq O s1 s0 -> exists s2, replay_doc O S s1 = Ok s2 /\ seq O s2 g.
 
+Definition dget (sm : summary) (t c : name) (r : Z) : option (V * V) := delta_get O (delta_of O sm t c) r.
+
+Lemma dget_nil : forall sm t c r, delta_of O sm t c = [] -> dget sm t c r = None.
+Proof. intros sm t c r H. unfold dget. rewrite H. reflexivity. Qed.
+
+
+(* every delta of the summary sits under a live key (its table and column exist); its row exists or was removed in the
+   bundle (its restore will be inserted at the front of the undo list) *)
+Definition dlive (sm : summary) (s : state) : Prop :=
+  forall t c r, dget sm t c r <> None ->
+  exists T C, find_table O s t = Some T /\ find_col O (t_cols O T) c = Some C /\
+              (In r (t_rows O T) \/ row_after O sm t r = Some false).
+
+Lemma dlive_existing : forall sm s t c r, dlive sm s -> dget sm t c r <> None -> existing O s t c r \/ row_after O sm t r = Some false.
+Proof.
+  intros sm s t c r H Hd. destruct (H t c r Hd) as [T [C [Hf [Hc [Hr|Hr]]]]]; [left; exists T, C; auto | right; exact Hr].
+Qed.
+
+(* undo, with exception sets: from any document that agrees with the ghost outside the cells created in the bundle
+   and outside E, the undo list so far leads to a document that agrees with the start outside what E becomes along
+   the way (renames) and outside the cells D, which are left to the restores that the flush inserts at the FRONT of the
+   undo list *)
+Definition cell := (name * name * Z)%type.
+Definition inD (D : list cell) : cellset := fun t c r => In (t, c, r) D.
+
+Definition tr_okE (s0 g : state) (U : list action) (sm : summary) (D : list cell) : Prop :=
+  forall (E : cellset) s1,
+    seq_ex O (fun t c r => created O sm t c r \/ E t c r) s1 g ->
+    exists s2, replay_doc O (rev U) s1 = Ok s2 /\
+               seq_ex O (fun t c r => img_list O (rev U) E t c r \/ inD D t c r) s2 s0.
+
+Lemma tr_okE_init : forall s0, tr_okE s0 s0 [] (sum_empty O) [].
+Proof.
+  intros s0 E s1 H. exists s1. split; [reflexivity|]. eapply (seq_ex_weaken O); [|exact H].
+  intros t c r [Hc|He]; [exfalso; exact (created_empty O _ _ _ Hc) | left; exact He].
+Qed.
+
+(* one step of the undo list.  gh: what the new undo actions make of the new ghost; N: the cells they leave different
+   from the old ghost (cells with a pending delta that the step removed: the undo actions put back the recalculated
+   values, the ghost holds the values before the recalculation) *)
+Lemma tr_okE_step : forall s0 g g' U u sm sm' D (N : cellset) DN,
+  tr_okE s0 g U sm D ->
+  (exists gh, replay_doc O (rev u) g' = Ok gh /\ seq_ex O (fun t c r => created O sm t c r \/ N t c r) gh g) ->
+  (forall t c r, existing O g t c r -> img_list O (rev u) (created O sm') t c r -> created O sm t c r \/ N t c r) ->
+  (forall t c r, img_list O (rev U) N t c r -> inD DN t c r) ->
+  tr_okE s0 g' (U ++ u) sm' (D ++ DN).
+Proof.
+  intros s0 g g' U u sm sm' D N DN Htr [gh [Hgh Hghg]] Hsig HDN E s1 Hs1.
+  destruct (replay_doc_cong O L _ _ _ _ _ (seq_ex_sym O L _ _ _ Hs1) Hgh) as [sx [Hrepx Hsx]].
+  pose proof (seq_ex_trans O L _ _ _ _ _ (seq_ex_sym O L _ _ _ Hsx) Hghg) as Hxg.
+  assert (Hxg' : seq_ex O (fun t c r => created O sm t c r \/ (img_list O (rev u) E t c r \/ N t c r)) sx g).
+  { eapply (seq_ex_restrict O); [exact Hxg|]. intros t c r Hex [Hi|[Hc|Hn]]; [|left; exact Hc | right; right; exact Hn].
+    apply (img_list_or O) in Hi. destruct Hi as [Hi|Hi]; [|right; left; exact Hi].
+    destruct (Hsig t c r) as [Hc|Hn]; [eapply (existing_seq O); [exact Hxg | exact Hex] | exact Hi | left; exact Hc | right; right; exact Hn]. }
+  destruct (Htr _ sx Hxg') as [s2 [Hrep2 Hs2]]. exists s2. split.
+  - rewrite rev_app_distr, (replay_doc_app O), Hrepx. exact Hrep2.
+  - eapply (seq_ex_weaken O); [|exact Hs2]. intros t c r [Hi|Hd].
+    + apply (img_list_or O) in Hi. destruct Hi as [Hi|Hi].
+      * left. rewrite rev_app_distr, (img_list_app O). exact Hi.
+      * right. unfold inD. apply in_or_app. right. apply HDN. exact Hi.
+    + right. unfold inD. apply in_or_app. left. exact Hd.
+Qed.
+
+(* a lossless doc action taken by the ghost itself *)
+Lemma tr_stepE : forall a s0 g g' U u ops sm D,
+  tr_okE s0 g U sm D -> wf_state O g -> struct_ok O g sm ->
+  apply_doc O a g = Ok (g', (u, ops)) -> (forall t c r, ~ lossy O a g t c r) -> act_names_ok O a ->
+  tr_okE s0 g' (U ++ u) (fold_left (sum_apply O) ops sm) D.
+Proof.
+  intros a s0 g g' U u ops sm D Htr Hwf [Hnames [Hkeys _]] Ha Hloss Hact.
+  rewrite <- (app_nil_r D).
+  eapply (tr_okE_step s0 g g' U u sm _ D no_cells []); [exact Htr| | |].
+  - destruct (undo_inverse O L a g Hwf g' u ops Ha) as [gh [Hrep Hseq]]. exists gh. split; [exact Hrep|].
+    eapply (seq_ex_restrict O); [exact Hseq|]. intros t c r _ Hl. exfalso. exact (Hloss _ _ _ Hl).
+  - intros t c r Hex Hi. left. eapply (sig_step O); eassumption.
+  - intros t c r Hi. exfalso. eapply (img_list_empty O); [|exact Hi]. intros ? ? ? [].
+Qed.
+
+Lemma tr_okE_marks : forall s0 g U sm sm' D,
+  (forall t c r, created O sm' t c r -> created O sm t c r) -> tr_okE s0 g U sm D -> tr_okE s0 g U sm' D.
+Proof.
+  intros s0 g U sm sm' D H Htr E s1 Hs1. apply Htr. eapply (seq_ex_weaken O); [|exact Hs1].
+  intros t c r [Hc|He]; [left; apply H; exact Hc | right; exact He].
+Qed.
+
 (* the invariant of the mixed phase *)
-Record gi (s0 g : state) (m : mstate O) : Prop := mkGI {
-  gi_tr : tr_ok O s0 g (m_undo O m) (m_sum O m);
+Record gi (s0 g : state) (D : list cell) (m : mstate O) : Prop := mkGI {
+  gi_tr : tr_okE s0 g (m_undo O m) (m_sum O m) D;
   gi_wfg : wf_state O g;
   gi_wfs : wf_state O (m_doc O m);
   gi_struct : struct_ok O g (m_sum O m);
   gi_rel : calc_rel O g (m_sum O m) (m_doc O m);
-  gi_live : deltas_live O (m_sum O m) (m_doc O m);
+  gi_live : dlive (m_sum O m) (m_doc O m);
   gi_redo : redo_ok s0 g (m_stored O m) }.
+
+Section Steps.
+Variable D : list cell.
 
 Lemma redo_snoc : forall s0 g S a g' o,
   redo_ok s0 g S -> apply_doc O a g = Ok (g', o) -> redo_ok s0 g' (S ++ [a]).
@@ -46,12 +135,6 @@ Proof.
   exists s2'. split; [exact H2|]. exact (seq_ex_sym O L _ _ _ Hs2').
 Qed.
 
-Lemma tr_ok_marks : forall s0 g U sm sm',
-  (forall t c r, created O sm' t c r -> created O sm t c r) -> tr_ok O s0 g U sm -> tr_ok O s0 g U sm'.
-Proof.
-  intros s0 g U sm sm' H Htr s1 Hs1. apply Htr. eapply (seq_ex_weaken O); [|exact Hs1]. exact H.
-Qed.
-
 Lemma alive_calc_rel : forall g sm s t, calc_rel O g sm s -> find_table O s t <> None -> find_table O g t <> None.
 Proof.
   intros g sm s t H Hs. specialize (H t). destruct (find_table O s t); [|congruence].
@@ -59,41 +142,68 @@ Proof.
 Qed.
 
 (* a calc delta in the mixed phase *)
+Lemma calc_rel_step : forall g (sm : summary) s t c chs s1 T C,
+  calc_rel O g sm s -> find_table O s t = Some T -> find_col O (t_cols O T) c = Some C ->
+  calc_ok O C (delta_of O sm t c) (t_rows O T) chs -> calc_cells O s t c chs = Ok s1 ->
+  calc_rel O g (sum_apply O sm (SAddChanges O t c chs)) s1.
+Proof.
+  intros g sm s t c chs s1 T C Hrel Ef Ec Hok H. unfold calc_cells in H. rewrite Ef, Ec in H. inversion H; subst s1; clear H.
+  pose proof (add_changes_spec O sm t c chs) as [_ [_ [_ [_ Hd]]]]. cbv zeta in Hd.
+  pose proof (find_table_id O _ _ _ Ef) as HidT. pose proof (find_col_id O _ _ _ Ec) as HidC.
+  set (C' := fold_left (fun C ch => col_set O C (fst ch) (snd (snd ch))) chs C) in *.
+  assert (HidC' : c_id O C' = c) by (unfold C'; rewrite (fold_col_set_id O); exact HidC).
+  intro t0. rewrite (find_put_table O) by exact HidT. specialize (Hrel t0). name_cases t0 t.
+  - subst t0. rewrite Ef in *. destruct (find_table O g t) as [Td|]; [|contradiction].
+    destruct Hrel as [Hrows Hcols]. split; [exact Hrows|]. cbn [t_cols t_rows].
+    intro c0. rewrite (find_put_col O) by exact HidC'. rewrite Hd, name_eqb_refl. cbn [andb]. specialize (Hcols c0).
+    name_cases c0 c.
+    + subst c0. rewrite Ec in *. destruct (find_col O (t_cols O Td) c) as [Cd|]; [|contradiction].
+      apply (col_ci_calc O L); assumption.
+    + exact Hcols.
+  - destruct (find_table O s t0), (find_table O g t0); try exact Hrel.
+    destruct Hrel as [Hrows Hcols]. split; [exact Hrows|]. intro c0. rewrite Hd, E. cbn [andb]. exact (Hcols c0).
+Qed.
+
 Lemma gi_calc : forall s0 g m m' t c chs,
-  gi s0 g m -> calc_event_ok O m t c chs -> step O m (Calc O t c chs) = Ok m' -> gi s0 g m'.
+  gi s0 g D m -> calc_event_ok O m t c chs -> step O m (Calc O t c chs) = Ok m' -> gi s0 g D m'.
 Proof.
   intros s0 g m m' t c chs [Htr Hwfg Hwfs [Hnames [Hkeys Hafter]] Hrel Hlive Hredo] Hok H.
-  assert (Hci : calc_inv O g (m_sum O m) m).
-  { constructor; [exact Hrel | exact Hlive | repeat split; reflexivity]. }
-  destruct (calc_step O L _ _ _ _ _ _ _ Hci Hok H) as [[Hrel' Hlive' [M1 [M2 [M3 M4]]]] [Hu' Hs']].
-  assert (Hdoc : exists s1, calc_cells O (m_doc O m) t c chs = Ok s1 /\ m_doc O m' = s1 /\
-                            m_sum O m' = sum_apply O (m_sum O m) (SAddChanges O t c chs)).
-  { cbn [step] in H. destruct (calc_cells O (m_doc O m) t c chs) as [s1|]; cbn [bind] in H; [|discriminate].
-    inversion H; subst m'. exists s1. auto. }
-  destruct Hdoc as [s1 [Hcc [Hd1 Hsm']]].
-  constructor.
-  - rewrite Hu'. eapply tr_ok_marks; [|exact Htr]. intros t1 c1 r1 Hc. eapply (created_same_marks O); [|exact Hc].
-    repeat split; assumption.
+  cbn [step] in H. destruct (calc_cells O (m_doc O m) t c chs) as [s1|] eqn:Hcc; cbn [bind] in H; [|discriminate].
+  inversion H; subst m'; clear H. cbn [m_doc m_undo m_sum m_stored].
+  unfold calc_event_ok in Hok.
+  destruct (find_table O (m_doc O m) t) as [T|] eqn:Ef; [|contradiction].
+  destruct (find_col O (t_cols O T) c) as [C|] eqn:Ec; [|contradiction].
+  pose proof (add_changes_spec O (m_sum O m) t c chs) as [M1 [M2 [M3 [M4 Hd]]]]. cbv zeta in M1, M2, M3, M4, Hd.
+  pose proof (calc_upd O _ t c chs s1 T C Hcc Ef Ec) as Hupd.
+  constructor; cbn [m_doc m_undo m_sum m_stored].
+  - eapply tr_okE_marks; [|exact Htr]. intros t1 c1 r1 Hc. apply (created_iff O) in Hc. apply (created_iff O).
+    rewrite M1, M2, M3 in Hc. exact Hc.
   - exact Hwfg.
-  - rewrite Hd1. eapply (calc_cells_wf O L); eassumption.
+  - eapply (calc_cells_wf O L); eassumption.
   - split; [exact Hnames|]. split.
-    + intros t1 Ht1. rewrite Hsm' in Ht1. cbn [sum_apply] in Ht1. rewrite (td_find_with_table O) in Ht1.
+    + intros t1 Ht1. cbn [sum_apply] in Ht1. rewrite (td_find_with_table O) in Ht1.
       name_cases t1 t; [|apply Hkeys; exact Ht1]. subst t1. left.
-      eapply alive_calc_rel; [exact Hrel|]. unfold calc_cells in Hcc. destruct (find_table O (m_doc O m) t); [discriminate | discriminate].
+      eapply alive_calc_rel; [exact Hrel|]. rewrite Ef. discriminate.
     + intros t1 T1 r1 Hf Hr. rewrite M4. eapply Hafter; eassumption.
-  - exact Hrel'.
-  - exact Hlive'.
-  - rewrite Hs'. exact Hredo.
+  - eapply calc_rel_step; eassumption.
+  - intros t1 c1 r1 Hg. unfold dget in Hg. rewrite Hd in Hg. rewrite M4.
+    assert (Hold : dget (m_sum O m) t1 c1 r1 <> None \/ (t1 = t /\ c1 = c /\ In r1 (t_rows O T))).
+    { destruct (name_eqb t1 t && name_eqb c1 c) eqn:Etc; [|left; exact Hg].
+      apply andb_true_iff in Etc. destruct Etc as [Et Ecc]. apply name_eqb_eq in Et. apply name_eqb_eq in Ecc. subst t1 c1.
+      destruct (delta_get_fold_add O _ _ _ Hg) as [H1|H1]; [left; exact H1|]. right. repeat split; try reflexivity.
+      eapply (calc_ok_rows O); eassumption. }
+    destruct Hold as [Hold|[-> [-> Hr]]].
+    + destruct (Hlive _ _ _ Hold) as [T1 [C1 [Hf1 [Hc1 Hr1]]]].
+      destruct (col_upd_key O _ _ _ _ _ _ _ _ _ _ _ _ Hupd Hf1 Hc1) as [T1' [C1' [Hf1' [Hc1' Hrw]]]].
+      exists T1', C1'. split; [exact Hf1'|]. split; [exact Hc1'|]. rewrite Hrw. exact Hr1.
+    + destruct (col_upd_key O _ _ _ _ _ _ _ _ _ _ _ _ Hupd Ef Ec) as [T1' [C1' [Hf1' [Hc1' Hrw]]]].
+      exists T1', C1'. split; [exact Hf1'|]. split; [exact Hc1'|]. left. rewrite Hrw. exact Hr.
+  - exact Hredo.
 Qed.
 
 
 (* ------------------------------------------------------------------------------------------------ *)
 (* deltas under the renames of the summary *)
-
-Definition dget (sm : summary) (t c : name) (r : Z) : option (V * V) := delta_get O (delta_of O sm t c) r.
-
-Lemma dget_nil : forall sm t c r, delta_of O sm t c = [] -> dget sm t c r = None.
-Proof. intros sm t c r H. unfold dget. rewrite H. reflexivity. Qed.
 
 Lemma dget_rencol : forall (sm : summary) t old new t' c' r,
   dget (sum_apply O sm (SRenameColumn O t (Some old) new)) t' c' r =
@@ -129,10 +239,11 @@ Lemma dget_none_old : forall (sm : summary) t old td r,
   td_find O (sm_tables O sm) t = Some td -> cd_find O (td_deltas O td) old = None -> dget sm t old r = None.
 Proof. intros sm t old td r H1 H2. unfold dget, delta_of. rewrite H1, H2. reflexivity. Qed.
 
-Lemma live_not_existing : forall sm s t c r, deltas_live O sm s -> ~ existing O s t c r -> dget sm t c r = None.
+Lemma live_no_key : forall sm s t c r, dlive sm s ->
+  (forall T C, find_table O s t = Some T -> find_col O (t_cols O T) c = Some C -> False) -> dget sm t c r = None.
 Proof.
-  intros sm s t c r Hl Hn. unfold dget. destruct (delta_get O (delta_of O sm t c) r) eqn:E; [|reflexivity].
-  exfalso. apply Hn. apply Hl. rewrite E. discriminate.
+  intros sm s t c r Hl Hn. destruct (dget sm t c r) eqn:E; [|reflexivity].
+  exfalso. destruct (Hl t c r) as [T [C [Hf [Hc _]]]]; [rewrite E; discriminate|]. exact (Hn T C Hf Hc).
 Qed.
 
 Lemma col_ci_ext : forall cd cd' (C C' Cd Cd' : column) rows,
@@ -184,8 +295,8 @@ Proof.
 Qed.
 
 Lemma gi_rename_col : forall s0 g m m' t old new,
-  gi s0 g m -> is_defunct new = false -> step O m (Doc O (RenameColumn O t old new)) = Ok m' ->
-  exists g', gi s0 g' m'.
+  gi s0 g D m -> is_defunct new = false -> step O m (Doc O (RenameColumn O t old new)) = Ok m' ->
+  exists g', gi s0 g' D m'.
 Proof.
   intros s0 g m m' t old new [Htr Hwfg Hwfs Hstruct Hrel Hlive Hredo] Hnew H.
   destruct (step_doc_inv _ _ _ H) as [s' [u [ops [Ha ->]]]]. cbn [m_doc m_undo m_sum m_stored].
@@ -205,7 +316,7 @@ Proof.
   assert (Hloss : forall t1 c1 r1, ~ lossy O a g t1 c1 r1) by (intros t1 c1 r1 []).
   pose proof (find_table_id O _ _ _ Ef) as HidT. pose proof (find_table_id O _ _ _ Efg) as HidTg.
   exists g'. constructor; cbn [m_doc m_undo m_sum m_stored].
-  - eapply (tr_step O L); try eassumption; try exact Hnew.
+  - eapply tr_stepE; try eassumption; try exact Hnew.
   - exact (apply_doc_wf O L _ _ _ _ Hwfg Hag).
   - exact (apply_doc_wf O L _ _ _ _ Hwfs Ha0).
   - eapply (struct_step O); try eassumption; try exact Hnew.
@@ -216,7 +327,7 @@ Proof.
       name_cases c0 old.
       * subst c0. assert (name_eqb old new = false) as -> by (apply name_eqb_neq; intro; subst; congruence). exact I.
       * pose proof (Hcols c0) as Hc0.
-        destruct (find_col O (t_cols O T) c0) as [D|] eqn:Ed, (find_col O (t_cols O Tg) c0) as [Dg|] eqn:Edg; try contradiction.
+        destruct (find_col O (t_cols O T) c0) as [Dc|] eqn:Ed, (find_col O (t_cols O Tg) c0) as [Dg|] eqn:Edg; try contradiction.
         -- eapply col_ci_ext; [reflexivity | reflexivity | reflexivity | reflexivity | | exact Hc0].
            intros r _. change (dget (sum_apply O (m_sum O m) (SRenameColumn O t (Some old) new)) t c0 r = dget (m_sum O m) t c0 r).
            rewrite dget_rencol, name_eqb_refl, E.
@@ -229,8 +340,8 @@ Proof.
               rewrite dget_rencol, !name_eqb_refl.
               destruct (td_find O (sm_tables O (m_sum O m)) t) as [td|] eqn:Etd.
               ** destruct (cd_find O (td_deltas O td) old) eqn:Eold; [reflexivity|].
-                 rewrite (dget_none_old _ _ _ _ r Etd Eold). eapply live_not_existing; [exact Hlive|].
-                 intros [T1 [C1 [H1 [H2 _]]]]. congruence.
+                 rewrite (dget_none_old _ _ _ _ r Etd Eold). eapply live_no_key; [exact Hlive|].
+                 intros T1 C1 H1 H2. congruence.
               ** symmetry. unfold dget, delta_of. rewrite Etd. reflexivity.
     + specialize (Hrel t0). destruct (find_table O (m_doc O m) t0) as [T0|], (find_table O g t0) as [Tg0|]; try exact Hrel.
       destruct Hrel as [Hr0 Hc0]. split; [exact Hr0|]. intro c0. specialize (Hc0 c0).
@@ -240,13 +351,15 @@ Proof.
       rewrite dget_rencol, E. reflexivity.
   - (* deltas_live *)
     cbn [fold_left]. intros t0 c0 r Hg. change (dget (sum_apply O (m_sum O m) (SRenameColumn O t (Some old) new)) t0 c0 r <> None) in Hg.
-    rewrite dget_rencol in Hg. unfold existing. rewrite (find_put_table O) by assumption.
+    rewrite dget_rencol in Hg.
+    destruct (sum_rencol_spec O (m_sum O m) t (Some old) new) as [_ [_ [_ [HRA _]]]]. cbv zeta in HRA. rewrite HRA.
+    rewrite (find_put_table O) by assumption.
     name_cases t0 t.
     + subst t0. rewrite Ef. name_cases c0 new.
       * subst c0. assert (Hold : dget (m_sum O m) t old r <> None).
         { destruct (td_find O (sm_tables O (m_sum O m)) t) as [td|]; [|congruence].
           destruct (cd_find O (td_deltas O td) old); [exact Hg|].
-          exfalso. apply Hg. eapply live_not_existing; [exact Hlive|]. intros [T1 [C1 [Q1 [Q2 _]]]]. congruence. }
+          exfalso. apply Hg. eapply live_no_key; [exact Hlive|]. intros T1 C1 Q1 Q2. congruence. }
         destruct (Hlive t old r Hold) as [T1 [C1 [Q1 [Q2 Q3]]]]. assert (T1 = T) by congruence. subst T1.
         eexists. eexists. split; [reflexivity|]. cbn [t_cols t_rows]. rewrite (find_app_col O), (find_drop_col O).
         assert (name_eqb new old = false) as -> by (apply name_eqb_neq; intro; subst; congruence).
@@ -274,8 +387,8 @@ Proof.
 Qed.
 
 Lemma gi_rename_table : forall s0 g m m' old new,
-  gi s0 g m -> is_defunct new = false -> step O m (Doc O (RenameTable O old new)) = Ok m' ->
-  exists g', gi s0 g' m'.
+  gi s0 g D m -> is_defunct new = false -> step O m (Doc O (RenameTable O old new)) = Ok m' ->
+  exists g', gi s0 g' D m'.
 Proof.
   intros s0 g m m' old new [Htr Hwfg Hwfs Hstruct Hrel Hlive Hredo] Hnew H.
   destruct (step_doc_inv _ _ _ H) as [s' [u [ops [Ha ->]]]]. cbn [m_doc m_undo m_sum m_stored].
@@ -297,7 +410,7 @@ Proof.
   { destruct (td_find O (sm_tables O (m_sum O m)) new) eqn:E; [|reflexivity]. exfalso.
     destruct (Hkeys new) as [Hk|Hk]; [rewrite E; discriminate | congruence | congruence]. }
   exists g'. constructor; cbn [m_doc m_undo m_sum m_stored].
-  - eapply (tr_step O L); try eassumption; try exact Hnew; try exact Hs0.
+  - eapply tr_stepE; try eassumption; try exact Hnew; try exact Hs0.
   - exact (apply_doc_wf O L _ _ _ _ Hwfg Hag).
   - exact (apply_doc_wf O L _ _ _ _ Hwfs Ha0).
   - eapply (struct_step O); try eassumption; try exact Hnew; try exact Hs0.
@@ -321,7 +434,8 @@ Proof.
         unfold dget, delta_of. rewrite Hstale, Eo. reflexivity.
   - cbn [fold_left]. intros t0 c0 r Hg.
     change (dget (sum_apply O (m_sum O m) (SRenameTable O (Some old) new)) t0 c0 r <> None) in Hg.
-    rewrite dget_rentab in Hg. unfold existing. rewrite (find_app_table O), (find_drop_table O). cbn [t_id].
+    rewrite dget_rentab in Hg. rewrite (find_app_table O), (find_drop_table O). cbn [t_id].
+    destruct (sum_rentab_spec O (m_sum O m) (Some old) new) as [_ Htd']. cbv zeta in Htd'.
     assert (Hcase : (t0 = new /\ dget (m_sum O m) old c0 r <> None) \/ (t0 <> new /\ t0 <> old /\ dget (m_sum O m) t0 c0 r <> None)).
     { destruct (td_find O (sm_tables O (m_sum O m)) old) eqn:Eo.
       - name_cases t0 new; [left; split; [exact E | exact Hg]|]. name_cases t0 old; [congruence|]. right. auto.
@@ -330,9 +444,14 @@ Proof.
         unfold dget, delta_of in Hg. rewrite Eo in Hg. cbn in Hg. congruence. }
     destruct Hcase as [[-> Hg']|[Hn1 [Hn2 Hg']]].
     + destruct (Hlive old c0 r Hg') as [T1 [C1 [Q1 [Q2 Q3]]]]. assert (T1 = T) by congruence. subst T1.
-      rewrite Eno, En, name_eqb_refl. eexists. eexists. split; [reflexivity|]. cbn [t_cols t_rows]. split; [exact Q2 | exact Q3].
+      rewrite Eno, En, name_eqb_refl. eexists. eexists. split; [reflexivity|]. cbn [t_cols t_rows]. split; [exact Q2|].
+      destruct Q3 as [Q3|Q3]; [left; exact Q3|]. right. unfold row_after in *. rewrite Htd'.
+      destruct (td_find O (sm_tables O (m_sum O m)) old) as [d|] eqn:Eo; [rewrite name_eqb_refl; exact Q3 | discriminate].
     + destruct (Hlive t0 c0 r Hg') as [T1 [C1 [Q1 [Q2 Q3]]]].
-      assert (name_eqb t0 old = false) as -> by (apply name_eqb_neq; exact Hn2). rewrite Q1. exists T1, C1. auto.
+      assert (name_eqb t0 old = false) as E1 by (apply name_eqb_neq; exact Hn2). rewrite E1, Q1. exists T1, C1.
+      split; [reflexivity|]. split; [exact Q2|]. destruct Q3 as [Q3|Q3]; [left; exact Q3|]. right.
+      unfold row_after in *. rewrite Htd'. assert (name_eqb t0 new = false) as E2 by (apply name_eqb_neq; exact Hn1).
+      destruct (td_find O (sm_tables O (m_sum O m)) old); [rewrite E2, E1; exact Q3 | exact Q3].
   - eapply redo_snoc; [exact Hredo | exact Hag].
 Qed.
 
@@ -407,12 +526,12 @@ Proof.
     eapply Hafter; [exact Eg | apply Hrows; exact Hr].
 Qed.
 
-Lemma gi_rebase : forall s0 g m, gi s0 g m -> quiet (m_sum O m) -> gi s0 (m_doc O m) m.
+Lemma gi_rebase : forall s0 g m, gi s0 g D m -> quiet (m_sum O m) -> gi s0 (m_doc O m) D m.
 Proof.
   intros s0 g m [Htr Hwfg Hwfs Hstruct Hrel Hlive Hredo] Hq.
   pose proof (calc_rel_quiet_seq _ _ _ Hrel Hq) as Hsg.
   constructor.
-  - intros s1 Hs1. apply Htr. eapply (seq_ex_weaken O); [|eapply (seq_ex_trans O L); [exact Hs1 | exact Hsg]].
+  - intros E s1 Hs1. apply Htr. eapply (seq_ex_weaken O); [|eapply (seq_ex_trans O L); [exact Hs1 | exact Hsg]].
     intros t c r [H|[]]. exact H.
   - exact Hwfs.
   - exact Hwfs.
@@ -425,8 +544,8 @@ Qed.
 
 (* any lossless doc action while nothing is pending *)
 Lemma gi_doc_quiet : forall s0 g m m' a,
-  gi s0 g m -> quiet (m_sum O m) -> (forall t c r, ~ lossy O a (m_doc O m) t c r) -> act_names_ok O a ->
-  step O m (Doc O a) = Ok m' -> gi s0 (m_doc O m') m' /\ quiet (m_sum O m').
+  gi s0 g D m -> quiet (m_sum O m) -> (forall t c r, ~ lossy O a (m_doc O m) t c r) -> act_names_ok O a ->
+  step O m (Doc O a) = Ok m' -> gi s0 (m_doc O m') D m' /\ quiet (m_sum O m').
 Proof.
   intros s0 g m m' a Hgi Hq Hl Hn H.
   destruct (gi_rebase _ _ _ Hgi Hq) as [Htr _ Hwfs Hstruct _ _ Hredo].
@@ -434,7 +553,7 @@ Proof.
   assert (Hq' : quiet (fold_left (sum_apply O) ops (m_sum O m))).
   { apply quiet_fold; [exact Hq|]. eapply (lossless_not_changes O); eassumption. }
   split; [|exact Hq']. constructor; cbn [m_doc m_undo m_sum m_stored].
-  - eapply (tr_step O L); eassumption.
+  - eapply tr_stepE; eassumption.
   - exact (apply_doc_wf O L _ _ _ _ Hwfs Ha).
   - exact (apply_doc_wf O L _ _ _ _ Hwfs Ha).
   - eapply (struct_step O); eassumption.
@@ -442,6 +561,117 @@ Proof.
   - intros t c r Hg. exfalso. apply Hg. apply Hq'.
   - eapply redo_snoc; eassumption.
 Qed.
+
+(* ------------------------------------------------------------------------------------------------ *)
+(* doc actions that keep off the cells with a pending delta (SC1), except that BulkRemoveRecord may remove such cells:
+   their restores are inserted at the front of the undo list by the flush, and the start-document cells they will have
+   to put right are collected in D *)
+
+Definition is_rmrec (a : action) : bool := match a with BulkRemoveRecord _ _ _ => true | _ => false end.
+
+Lemma touch_dec : forall a t c r, {touch O a t c r} + {~ touch O a t c r}.
+Proof.
+  intros a t c r. destruct a; cbn [touch];
+    repeat match goal with
+           | |- {?A /\ ?B} + {_} =>
+               let HA := fresh in let HB := fresh in
+               assert (HA : {A} + {~ A}); [|assert (HB : {B} + {~ B}); [|destruct HA, HB; [left; split; assumption | right; tauto | right; tauto | right; tauto]]]
+           | |- {?A \/ ?B} + {_} =>
+               let HA := fresh in let HB := fresh in
+               assert (HA : {A} + {~ A}); [|assert (HB : {B} + {~ B}); [|destruct HA, HB; [left; left; assumption | left; left; assumption | left; right; assumption | right; tauto]]]
+           | |- {@eq name _ _} + {_} => apply name_eq_dec
+           | |- {In _ _} + {_} => first [apply (in_dec Z.eq_dec) | apply (in_dec name_eq_dec)]
+           end.
+Qed.
+
+(* the actions that can make a removed row id reappear *)
+Definition readds (a : action) (t : name) (r : Z) : Prop :=
+  match a with
+  | BulkAddRecord _ t' rows _ => t = t' /\ In r rows
+  | ReplaceTableData _ t' _ _ => t = t'
+  | RemoveTable _ t' => t = t'
+  | _ => False
+  end.
+
+Lemma readds_touch : forall a t c r, readds a t r -> touch O a t c r.
+Proof. intros a t c r H. destruct a; cbn in *; try contradiction; exact H. Qed.
+
+Lemma row_after_ops : forall a s s' u ops (sm : summary) t r,
+  apply_doc O a s = Ok (s', (u, ops)) -> is_rename O a = false -> is_defunct t = false ->
+  ~ readds a t r ->
+  row_after O sm t r = Some false -> row_after O (fold_left (sum_apply O) ops sm) t r = Some false.
+Proof.
+  intros a s s' u ops sm t1 r1 H Hren Hdt Hnt Hra. destruct a; try discriminate; unfold apply_doc in H; cbn [readds] in Hnt.
+  -
+    destruct (find_table O s t) as [T|]; [|discriminate]. destruct (_ || _); [discriminate|].
+    destruct (negb _); [discriminate|]. destruct (add_records O T rows cols); cbn in H; [|discriminate].
+    inversion H; subst s' u ops. cbn [fold_left sum_apply].
+    change (fun (d : tdelta O) (r : Z) => mkTD O (pres_setdefault (td_before O d) r false) (pres_set (td_after O d) r true) (td_colren O d) (td_deltas O d)) with (mark O false true).
+    destruct (sum_mark_spec O sm t rows false true) as [_ [_ [_ [Ha _]]]]. cbv zeta in Ha. rewrite Ha.
+    name_cases t1 t; [|exact Hra]. subst t1.
+    assert (zmem r1 rows = false) as -> by (apply zmem_false; intro Hin; apply Hnt; auto). exact Hra.
+  - destruct (find_table O s t) as [T|]; [|discriminate].
+    remember (filter (fun r => zmem r (t_rows O T)) rows) as rows' eqn:Er.
+    destruct (list_eq_dec Z.eq_dec rows' []) as [Hnil|Hne].
+    + rewrite Hnil in H. inversion H; subst. exact Hra.
+    + rewrite (match_nonnil _ _ rows' _ _ Hne) in H. inversion H; subst s' u ops. cbn [fold_left sum_apply].
+      change (fun (d : tdelta O) (r : Z) => mkTD O (pres_setdefault (td_before O d) r true) (pres_set (td_after O d) r false) (td_colren O d) (td_deltas O d)) with (mark O true false).
+      destruct (sum_mark_spec O sm t rows' true false) as [_ [_ [_ [Ha _]]]]. cbv zeta in Ha. rewrite Ha.
+      name_cases t1 t; [|exact Hra]. subst t1. destruct (zmem r1 rows'); [reflexivity | exact Hra].
+  - destruct (find_table O s t) as [T|]; [|discriminate]. destruct (_ || _); [discriminate|].
+    destruct (negb _); [discriminate|]. destruct (old_values O (t_cols O T) rows cols); cbn in H; [|discriminate].
+    destruct (set_columns O (t_cols O T) rows cols); cbn in H; [|discriminate]. inversion H; subst s' u ops. exact Hra.
+  - destruct (find_table O s t) as [T|]; [|discriminate]. destruct (negb _); [discriminate|].
+    match type of H with context [add_records O ?T0 rows ?cs] => destruct (add_records O T0 rows cs) end; cbn in H; [|discriminate].
+    inversion H; subst s' u ops. cbn [fold_left sum_apply].
+    change (fun (d : tdelta O) (r : Z) => mkTD O (pres_setdefault (td_before O d) r true) (pres_set (td_after O d) r false) (td_colren O d) (td_deltas O d)) with (mark O true false).
+    change (fun (d : tdelta O) (r : Z) => mkTD O (pres_setdefault (td_before O d) r false) (pres_set (td_after O d) r true) (td_colren O d) (td_deltas O d)) with (mark O false true).
+    match goal with |- row_after O (with_table O ?sm1 t _) _ _ = _ =>
+      destruct (sum_mark_spec O sm1 t rows false true) as [_ [_ [_ [Ha2 _]]]]; cbv zeta in Ha2; rewrite Ha2 end.
+    assert (Et : name_eqb t1 t = false) by (apply name_eqb_neq; exact Hnt). rewrite Et.
+    destruct (sum_mark_spec O sm t (t_rows O T) true false) as [_ [_ [_ [Ha1 _]]]]. cbv zeta in Ha1. rewrite Ha1, Et. exact Hra.
+  - destruct (find_table O s t) as [T|]; [|discriminate]. destruct (has_column O T c); [discriminate|].
+    inversion H; subst s' u ops. cbn [fold_left].
+    destruct (sum_rencol_spec O sm t None c) as [_ [_ [_ [Ha _]]]]. cbv zeta in Ha. rewrite Ha. exact Hra.
+  - destruct (find_table O s t) as [T|]; [|discriminate]. destruct (find_col O (t_cols O T) c) as [C|]; [|discriminate].
+    assert (Hops : ops = [SRenameColumn O t (Some c) (defunct_name c)] \/
+                   exists chs, ops = [SAddChanges O t c chs; SRenameColumn O t (Some c) (defunct_name c)]).
+    { match type of H with context [match ?l with [] => _ | _ => _ end] => destruct l end;
+        [|destruct (ci_isformula (c_info O C))]; inversion H; eauto. }
+    destruct Hops as [->|[chs ->]]; cbn [fold_left].
+    + destruct (sum_rencol_spec O sm t (Some c) (defunct_name c)) as [_ [_ [_ [Ha _]]]]. cbv zeta in Ha. rewrite Ha. exact Hra.
+    + match goal with |- row_after O (sum_apply O ?sm1 _) _ _ = _ =>
+        destruct (sum_rencol_spec O sm1 t (Some c) (defunct_name c)) as [_ [_ [_ [Ha _]]]]; cbv zeta in Ha; rewrite Ha end.
+      destruct (add_changes_spec O sm t c chs) as [_ [_ [_ [Ha2 _]]]]. cbv zeta in Ha2. rewrite Ha2. exact Hra.
+  - destruct (find_table O s t) as [T|]; [|discriminate]. destruct (find_col O (t_cols O T) c) as [C|]; [|discriminate].
+    destruct (colinfo_eqb _ _); inversion H; subst s' u ops; exact Hra.
+  - destruct (find_table O s t); [discriminate|]. destruct (_ || _); [discriminate|].
+    inversion H; subst s' u ops. cbn [fold_left]. unfold row_after in *.
+    destruct (sum_rentab_spec O sm None t) as [_ Htd]. cbv zeta in Htd. rewrite Htd. exact Hra.
+  - destruct (find_table O s t) as [T|]; [|discriminate].
+    assert (Hops : ops = [SRenameTable O (Some t) (defunct_name t)]) by (destruct (t_rows O T); inversion H; reflexivity).
+    subst ops. cbn [fold_left]. unfold row_after in *.
+    destruct (sum_rentab_spec O sm (Some t) (defunct_name t)) as [_ Htd]. cbv zeta in Htd. rewrite Htd.
+    destruct (td_find O (sm_tables O sm) t) as [d|]; [|exact Hra].
+    assert (name_eqb t1 (defunct_name t) = false) as -> by (apply name_eqb_neq; intro; subst t1; discriminate).
+    assert (name_eqb t1 t = false) as -> by (apply name_eqb_neq; exact Hnt). exact Hra.
+Qed.
+
+(* the rows a BulkRemoveRecord removes are marked as gone *)
+Lemma rmrec_row_after : forall s t rows s' u ops (sm : summary) T r,
+  apply_doc O (BulkRemoveRecord O t rows) s = Ok (s', (u, ops)) -> find_table O s t = Some T ->
+  In r rows -> In r (t_rows O T) -> row_after O (fold_left (sum_apply O) ops sm) t r = Some false.
+Proof.
+  intros s t rows s' u ops sm T r H Ef Hr HrT. unfold apply_doc in H. rewrite Ef in H.
+  remember (filter (fun r => zmem r (t_rows O T)) rows) as rows' eqn:Er.
+  assert (Hin : In r rows') by (rewrite Er; apply filter_In; split; [exact Hr | apply zmem_In; exact HrT]).
+  destruct (list_eq_dec Z.eq_dec rows' []) as [Hnil|Hne]; [rewrite Hnil in Hin; destruct Hin|].
+  rewrite (match_nonnil _ _ rows' _ _ Hne) in H. inversion H; subst s' u ops. cbn [fold_left sum_apply].
+  change (fun (d : tdelta O) (r : Z) => mkTD O (pres_setdefault (td_before O d) r true) (pres_set (td_after O d) r false) (td_colren O d) (td_deltas O d)) with (mark O true false).
+  destruct (sum_mark_spec O sm t rows' true false) as [_ [_ [_ [Ha _]]]]. cbv zeta in Ha. rewrite Ha, name_eqb_refl.
+  apply zmem_In in Hin. rewrite Hin. reflexivity.
+Qed.
+
 
 (* ------------------------------------------------------------------------------------------------ *)
 (* any lossless doc action that keeps off the cells with a pending delta (SC1) *)
@@ -461,13 +691,14 @@ Proof. reflexivity. Qed.
 Lemma dget_doc_ops : forall a s s' u ops (sm : summary),
   apply_doc O a s = Ok (s', (u, ops)) -> is_rename O a = false -> (forall t c r, ~ lossy O a s t c r) ->
   (forall t c r, touch O a t c r -> dget sm t c r = None) ->
-  (forall t c r, dget sm t c r <> None -> existing O s t c r) -> names_ok O s ->
+  (forall t c r, dget sm t c r <> None -> exists T C, find_table O s t = Some T /\ find_col O (t_cols O T) c = Some C) ->
+  names_ok O s ->
   forall t c r, dget (fold_left (sum_apply O) ops sm) t c r = dget sm t c r.
 Proof.
   intros a s s' u ops sm H Hren Hloss Hav Hlive Hnames t1 c1 r1.
   assert (Hdef_c : forall t c r, is_defunct c = true -> dget sm t c r = None).
   { intros t c r Hd. destruct (dget sm t c r) eqn:E; [|reflexivity]. exfalso.
-    destruct (Hlive t c r) as [T [C [Hf [Hc _]]]]; [congruence|]. destruct (Hnames _ _ Hf) as [_ Hdc]. rewrite (Hdc _ _ Hc) in Hd. discriminate. }
+    destruct (Hlive t c r) as [T [C [Hf Hc]]]; [congruence|]. destruct (Hnames _ _ Hf) as [_ Hdc]. rewrite (Hdc _ _ Hc) in Hd. discriminate. }
   assert (Hdef_t : forall t c r, is_defunct t = true -> dget sm t c r = None).
   { intros t c r Hd. destruct (dget sm t c r) eqn:E; [|reflexivity]. exfalso.
     destruct (Hlive t c r) as [T [C [Hf _]]]; [congruence|]. destruct (Hnames _ _ Hf) as [Hdt _]. rewrite Hdt in Hd. discriminate. }
@@ -514,15 +745,18 @@ Proof.
 Qed.
 
 
-Lemma gi_doc_frame : forall s0 g m m' a,
-  gi s0 g m -> is_rename O a = false ->
-  (forall t c r, touch O a t c r -> dget (m_sum O m) t c r = None) ->
+Lemma gi_doc_frame : forall s0 g m m' a DN,
+  gi s0 g D m -> is_rename O a = false ->
+  (forall t c r, touch O a t c r -> dget (m_sum O m) t c r <> None -> is_rmrec a = true) ->
   (forall t c r, ~ lossy O a (m_doc O m) t c r) -> act_names_ok O a ->
-  step O m (Doc O a) = Ok m' -> exists g', gi s0 g' m'.
+  (forall t c r, img_list O (rev (m_undo O m)) (fun t c r => pending O (m_sum O m) t c r /\ touch O a t c r) t c r ->
+                 inD DN t c r) ->
+  step O m (Doc O a) = Ok m' -> exists g', gi s0 g' (D ++ DN) m'.
 Proof.
-  intros s0 g m m' a [Htr Hwfg Hwfs Hstruct Hrel Hlive Hredo] Hren Hav Hloss Hact H.
+  intros s0 g m m' a DN [Htr Hwfg Hwfs Hstruct Hrel Hlive Hredo] Hren Hav Hloss Hact HDN H.
   destruct (step_doc_inv _ _ _ H) as [s' [u [ops [Ha ->]]]]. cbn [m_doc m_undo m_sum m_stored].
   set (s := m_doc O m) in *. set (sm := m_sum O m) in *.
+  set (N := fun t c r => pending O sm t c r /\ touch O a t c r) in *.
   pose proof (calc_rel_seq_ex O g sm s Hrel) as Hseq.
   pose proof (struct_ok_seq_ex O _ g s sm Hseq Hstruct) as Hstr_s.
   destruct Hstr_s as [Hnames_s [Hkeys_s Hafter_s]].
@@ -530,39 +764,49 @@ Proof.
   destruct (apply_doc_cong O L a _ s g s' (u, ops) Hseq Ha) as [g' [[u2 ops2] [Hag Hsg']]].
   rewrite (img_nonrename O) in Hsg' by exact Hren.
   set (sm' := fold_left (sum_apply O) ops sm).
+  assert (Hkey : forall t c r, dget sm t c r <> None -> exists T C, find_table O s t = Some T /\ find_col O (t_cols O T) c = Some C).
+  { intros t c r Hd. destruct (Hlive t c r Hd) as [T [C [Hf [Hc _]]]]. eauto. }
   assert (Hd : forall t c r, dget sm' t c r = dget sm t c r).
-  { eapply dget_doc_ops; try eassumption. }
-  assert (Hnt : forall t c r, pending O sm t c r -> ~ touch O a t c r).
-  { intros t c r Hp Ht. apply Hp. apply (Hav t c r Ht). }
-  assert (Hund : forall x, In x (rev u) -> is_rename O x = false /\ forall t c r, pending O sm t c r -> ~ touch O x t c r).
+  { destruct (is_rmrec a) eqn:Erm.
+    - destruct a; try discriminate. unfold apply_doc in Ha. destruct (find_table O s t) as [T|]; [|discriminate].
+      remember (filter (fun r => zmem r (t_rows O T)) rows) as rows' eqn:Er.
+      destruct (list_eq_dec Z.eq_dec rows' []) as [Hnil|Hne].
+      + rewrite Hnil in Ha. inversion Ha; subst. reflexivity.
+      + rewrite (match_nonnil _ _ rows' _ _ Hne) in Ha. inversion Ha; subst s' u ops. intros t1 c1 r1. unfold sm'. cbn [fold_left sum_apply].
+        apply dget_records.
+    - eapply dget_doc_ops; try eassumption. intros t c r Ht. destruct (dget sm t c r) eqn:E; [|reflexivity].
+      assert (false = true) by (apply (Hav t c r Ht); rewrite E; discriminate). discriminate. }
+  assert (Hnt : forall t c r, pending O sm t c r -> ~ N t c r -> ~ touch O a t c r).
+  { intros t c r Hp Hn Ht. apply Hn. split; assumption. }
+  assert (Hund : forall x, In x (rev u) -> is_rename O x = false /\ forall t c r, ~ touch O a t c r -> ~ touch O x t c r).
   { intros x Hx. apply in_rev in Hx. destruct (undo_touch O a s s' u ops Ha Hren x Hx) as [Hr Ht]. split; [exact Hr|].
-    intros t c r Hp Htx. apply (Hnt t c r Hp). apply Ht. exact Htx. }
+    intros t c r Hn Htx. apply Hn. apply Ht. exact Htx. }
   assert (Hcre : forall t c r, existing O s t c r -> created O sm' t c r -> created O sm t c r).
   { intros t c r Hex Hc. eapply (sig_step O); try eassumption.
     rewrite (img_list_nonrename O) by (intros x Hx; apply (Hund x Hx)). exact Hc. }
+  assert (Hndef : forall t c r, dget sm t c r <> None -> is_defunct t = false).
+  { intros t c r Hd0. destruct (Hkey t c r Hd0) as [T [C [Hf _]]]. apply (Hnames_s _ _ Hf). }
   exists g'. constructor; cbn [m_doc m_undo m_sum m_stored].
-  - (* undo *)
-    intros s1 Hs1.
-    pose proof (seq_ex_trans O L _ _ _ _ _ Hs1 (seq_ex_sym O L _ _ _ Hsg')) as H1.
-    destruct (undo_inverse O L a s Hwfs s' u ops Ha) as [sr [Hrep Hsr]].
-    destruct (replay_doc_cong O L _ _ _ _ _ (seq_ex_sym O L _ _ _ H1) Hrep) as [sx [Hrepx Hsx]].
-    rewrite (img_list_nonrename O) in Hsx by (intros x Hx; apply (Hund x Hx)).
-    pose proof (seq_ex_trans O L _ _ _ _ _ (seq_ex_trans O L _ _ _ _ _ (seq_ex_sym O L _ _ _ Hsx) Hsr) Hseq) as Hxg.
-    assert (Hxg' : seq_ex O (fun t c r => created O sm t c r \/ pending O sm t c r) sx g).
-    { eapply (seq_ex_restrict O); [exact Hxg|]. intros t c r Hex [[[Hc|Hp]|Hl]|Hp]; [| right; exact Hp | exfalso; exact (Hloss _ _ _ Hl) | right; exact Hp].
-      left. apply Hcre; [|exact Hc].
-      eapply (existing_seq O); [|exact Hex].
-      exact (seq_ex_trans O L _ _ _ _ _ (seq_ex_sym O L _ _ _ Hsx) Hsr). }
-    assert (Hfin : seq_ex O (created O sm) sx g).
-    { eapply (seq_ex_refine O); [exact Hxg'|]. intros t c r i1 v1 i2 v2 Hp Hc1 Hc2.
-      assert (Hfx : cellv O sx t c r = cellv O s1 t c r).
-      { eapply (replay_frame O); [exact Hrepx|]. intros x Hx. destruct (Hund x Hx) as [Hr Ht]. split; [exact Hr | apply Ht; exact Hp]. }
-      assert (Hfg : cellv O g' t c r = cellv O g t c r) by (eapply (frame O); [exact Hag | exact Hren | apply Hnt; exact Hp]).
-      rewrite Hfx in Hc1. destruct (seq_ex_cellv O _ _ _ _ _ _ _ _ Hs1 Hc1) as [v2' [Hc2' Hor]].
-      rewrite Hfg, Hc2 in Hc2'. inversion Hc2'; subst. destruct Hor as [Hc|Hv]; [|right; exact Hv].
-      left. apply Hcre; [|exact Hc]. apply Hlive. exact Hp. }
-    destruct (Htr sx Hfin) as [s2 [Hrep2 Hs2]]. exists s2. split; [|exact Hs2].
-    rewrite rev_app_distr, (replay_doc_app O), Hrepx. exact Hrep2.
+  - (* undo: the REAL undo actions, replayed on the new ghost, lead to the old ghost, except for the removed cells that
+       had a pending delta *)
+    eapply (tr_okE_step s0 g g' (m_undo O m) u sm sm' D N DN); [exact Htr| | |exact HDN].
+    + destruct (undo_inverse O L a s Hwfs s' u ops Ha) as [sr [Hrep Hsr]].
+      destruct (replay_doc_cong O L _ _ _ _ _ Hsg' Hrep) as [gh [Hrepg Hsg]].
+      rewrite (img_list_nonrename O) in Hsg by (intros x Hx; apply (Hund x Hx)).
+      exists gh. split; [exact Hrepg|].
+      pose proof (seq_ex_trans O L _ _ _ _ _ (seq_ex_trans O L _ _ _ _ _ (seq_ex_sym O L _ _ _ Hsg) Hsr) Hseq) as Hgg.
+      assert (Hgg' : seq_ex O (fun t c r => N t c r \/ pending O sm t c r) gh g).
+      { eapply (seq_ex_restrict O); [exact Hgg|]. intros t c r _ [[Hp|Hl]|Hp]; [right; exact Hp | exfalso; exact (Hloss _ _ _ Hl) | right; exact Hp]. }
+      eapply (seq_ex_weaken O); [|eapply (seq_ex_refine O); [exact Hgg'|]].
+      * intros t c r Hn. right. exact Hn.
+      * intros t c r i1 v1 i2 v2 Hp Hc1 Hc2.
+        destruct (touch_dec a t c r) as [Ht|Ht]; [left; split; assumption|]. right.
+        assert (Hfx : cellv O gh t c r = cellv O g' t c r).
+        { eapply (replay_frame O); [exact Hrepg|]. intros x Hx. destruct (Hund x Hx) as [Hr Htx]. split; [exact Hr | apply Htx; exact Ht]. }
+        assert (Hfg : cellv O g' t c r = cellv O g t c r) by (eapply (frame O); [exact Hag | exact Hren | exact Ht]).
+        rewrite Hfx, Hfg, Hc2 in Hc1. inversion Hc1; subst. apply (venc_refl O L).
+    + intros t c r Hex Hi. left. rewrite (img_list_nonrename O) in Hi by (intros x Hx; apply (Hund x Hx)).
+      apply Hcre; [|exact Hi]. eapply (existing_seq O); [exact (seq_ex_sym O L _ _ _ Hseq) | exact Hex].
   - exact (apply_doc_wf O L _ _ _ _ Hwfg Hag).
   - exact (apply_doc_wf O L _ _ _ _ Hwfs Ha).
   - eapply (struct_ok_seq_ex O); [exact (seq_ex_sym O L _ _ _ Hsg')|].
@@ -572,13 +816,35 @@ Proof.
       change (dget sm' t c r <> None). rewrite Hd. exact Hp.
     + intros t c r i v ig vg b a0 Hcs Hcg Hdl. change (dget sm' t c r = Some (b, a0)) in Hdl. rewrite Hd in Hdl.
       assert (Hp : pending O sm t c r) by (unfold pending; change (dget sm t c r <> None); rewrite Hdl; discriminate).
-      rewrite (frame O a s s' _ t c r Ha Hren (Hnt _ _ _ Hp)) in Hcs.
-      rewrite (frame O a g g' _ t c r Hag Hren (Hnt _ _ _ Hp)) in Hcg.
-      destruct (calc_rel_cellv O g sm s t c r i v Hrel Hcs) as [vg0 [Hcg0 Hm]].
-      rewrite Hcg in Hcg0. inversion Hcg0; subst. unfold dget in Hdl. rewrite Hdl in Hm. exact Hm.
-  - intros t c r Hg. change (dget sm' t c r <> None) in Hg. rewrite Hd in Hg.
-    apply (cellv_existing O). rewrite (frame O a s s' _ t c r Ha Hren (Hnt _ _ _ Hg)).
-    apply (cellv_existing O). apply Hlive. exact Hg.
+      destruct (touch_dec a t c r) as [Ht|Ht].
+      * exfalso. assert (Hrm : is_rmrec a = true) by (apply (Hav t c r Ht); rewrite Hdl; discriminate).
+        destruct a; try discriminate. cbn [touch] in Ht. destruct Ht as [-> Hr].
+        rewrite (rmrec_gone O _ _ _ _ _ c r Ha Hr) in Hcs. discriminate.
+      * rewrite (frame O a s s' _ t c r Ha Hren Ht) in Hcs.
+        rewrite (frame O a g g' _ t c r Hag Hren Ht) in Hcg.
+        destruct (calc_rel_cellv O g sm s t c r i v Hrel Hcs) as [vg0 [Hcg0 Hm]].
+        rewrite Hcg in Hcg0. inversion Hcg0; subst. unfold dget in Hdl. rewrite Hdl in Hm. exact Hm.
+  - intros t c r Hg. rewrite Hd in Hg. destruct (Hlive t c r Hg) as [T [C [Hf [Hc Hrow]]]].
+    assert (Hntc : ~ touchc O a t c).
+    { intro Htc. assert (Hrm : is_rmrec a = true) by (apply (Hav t c r (touchc_touch O a t c r Htc)); exact Hg).
+      destruct a; try discriminate. exact Htc. }
+    pose proof (frame_col O a s s' _ t c Ha Hren Hntc) as Hcol. unfold colv in Hcol. rewrite Hf, Hc in Hcol.
+    destruct (find_table O s' t) as [T'|] eqn:Ef'; [|discriminate].
+    destruct (find_col O (t_cols O T') c) as [C'|] eqn:Ec'; [|discriminate].
+    exists T', C'. split; [reflexivity|]. split; [exact Ec'|].
+    destruct (touch_dec a t c r) as [Ht|Ht].
+    + right. assert (Hrm : is_rmrec a = true) by (apply (Hav t c r Ht); exact Hg).
+      destruct Hrow as [Hrow|Hrow].
+      * destruct a; try discriminate. cbn [touch] in Ht. destruct Ht as [-> Hr].
+        eapply rmrec_row_after; eassumption.
+      * eapply row_after_ops; [exact Ha | exact Hren | exact (Hndef _ _ _ Hg) | | exact Hrow].
+        destruct a; try discriminate. intros [].
+    + destruct Hrow as [Hrow|Hrow].
+      * left. assert (Hcv : cellv O s' t c r <> None).
+        { rewrite (frame O a s s' _ t c r Ha Hren Ht). apply (cellv_existing O). exists T, C. auto. }
+        apply (cellv_existing O) in Hcv. destruct Hcv as [T1 [C1 [Q1 [_ Q3]]]]. assert (T1 = T') by congruence. subst T1. exact Q3.
+      * right. eapply row_after_ops; [exact Ha | exact Hren | exact (Hndef _ _ _ Hg) | | exact Hrow].
+        intro Hre. apply Ht. apply readds_touch. exact Hre.
   - eapply redo_snoc; [exact Hredo | exact Hag].
 Qed.
 
@@ -626,7 +892,7 @@ Proof.
 Qed.
 
 Lemma modflush_core : forall s0 g m t c mi T C s2 cd sm3,
-  gi s0 g m ->
+  gi s0 g D m ->
   find_table O (m_doc O m) t = Some T -> find_col O (t_cols O T) c = Some C ->
   colinfo_eqb (apply_modinfo mi (c_info O C)) (c_info O C) = false ->
   (forall r, dget (m_sum O m) t c r = None) ->
@@ -641,7 +907,7 @@ Lemma modflush_core : forall s0 g m t c mi T C s2 cd sm3,
   (forall t', td_find O (sm_tables O sm3) t' <> None -> t' = t \/ td_find O (sm_tables O (m_sum O m)) t' <> None) ->
   (forall r, delta_get O cd r <> None -> In r (t_rows O T)) ->
   (forall r, In r (t_rows O T) -> rowcond (ci_type (apply_modinfo mi (c_info O C))) C cd r) ->
-  exists g3, gi s0 g3 (mkM O s2 (m_stored O m ++ [ModifyColumn O t c mi] ++ store_block O t c cd)
+  exists g3, gi s0 g3 D (mkM O s2 (m_stored O m ++ [ModifyColumn O t c mi] ++ store_block O t c cd)
                            (m_undo O m ++ restore_block O sm3 t c cd ++ [ModifyColumn O t c (undo_modinfo mi (c_info O C))])
                            sm3).
 Proof.
@@ -695,7 +961,6 @@ Proof.
                       else col_get O Cg1 r) in *.
   exists g3. constructor; cbn [m_doc m_undo m_sum m_stored].
   - (* undo *)
-    intros s1x Hs1x.
     assert (Hg3t : exists Tg3 Cg3, find_table O g3 t = Some Tg3 /\ find_col O (t_cols O Tg3) c = Some Cg3 /\ c_info O Cg3 = new).
     { destruct Hupd13 as [_ [Tg3 [Cg3 [_ [A2 [_ [_ [_ [A6 [A7 _]]]]]]]]]]. eauto. }
     destruct Hg3t as [Tg3 [Cg3 [Efg3 [Ecg3 Hinfo3]]]].
@@ -709,8 +974,6 @@ Proof.
     rewrite Hinfo3, Hres in Hupd3.
     destruct (col_upd_trans O _ _ _ _ _ _ _ _ _ _ _ _ _ Hupd13 Hupd3) as [Hupd_g3' [_ [_ Hget3]]].
     assert (Hrep_mb : replay_doc O [mb] g3 = Ok g3') by (cbn [replay_doc]; rewrite Hag3; reflexivity).
-    destruct (replay_doc_cong O L [mb] _ g3 s1x g3' (seq_ex_sym O L _ _ _ Hs1x) Hrep_mb) as [x [Hx Hsx]].
-    cbn [img_list img mb] in Hsx.
     assert (Hg3'g : seq_ex O (fun t' c' r => t' = t /\ c' = c /\ In r (changed_rows O cd)) g3' g).
     { rewrite Hinfo in Hupd_g3'. eapply (seq_ex_col_upd_self O L); [exact Hupd_g3'|].
       intros r Hr. destruct (in_dec Z.eq_dec r (changed_rows O cd)) as [Hch|Hch]; [left; auto|]. right.
@@ -722,18 +985,25 @@ Proof.
       { eapply (venc_trans O L); [apply (vnorm_enc O L); apply (venc_sym O L); apply Hcells; exact HrT|].
         eapply (venc_trans O L); [exact Hrt | apply Hcells; exact HrT]. }
       eapply (venc_trans O L); [apply (vnorm_enc O L); exact H1|]. apply Hng. exact Hr. }
-    assert (Hxg : seq_ex O (block_cells O sm3 t c cd) x g).
-    { exact (seq_ex_trans O L _ _ _ _ _ (seq_ex_sym O L _ _ _ Hsx) Hg3'g). }
-    destruct (block_one O L sm3 x g t c cd Hxg Hwfg) as [s'' [Hrb Hs'']].
+    assert (Hxg : seq_ex O (block_cells O sm3 t c cd) g3' g).
+    { eapply (seq_ex_weaken O); [|exact Hg3'g]. intros t1 c1 r1 H1. right. exact H1. }
+    destruct (block_one O L sm3 g3' g t c cd Hxg Hwfg) as [s'' [Hrb Hs'']].
     { intros Td Cd r b a0 H1 H2 Hd. assert (Td = Tg) by congruence. subst Td. assert (Cd = Cg) by congruence. subst Cd.
       assert (HrT : In r (t_rows O T)) by (apply Hdrows; rewrite Hd; discriminate).
       pose proof (Hrc r HrT) as H. unfold rowcond in H. rewrite Hd in H. destruct H as [Hb _].
       eapply (venc_trans O L); [exact Hb | apply Hcells; exact HrT]. }
     { intros r Hd. exists Tg, Cg. split; [exact Efg|]. split; [exact Ecg|]. apply Hrows. apply Hdrows. exact Hd. }
-    rewrite !rev_app_distr. cbn [rev app].
-    change (mb :: rev (restore_block O sm3 t c cd) ++ rev (m_undo O m)) with ([mb] ++ rev (restore_block O sm3 t c cd) ++ rev (m_undo O m)).
-    rewrite (replay_doc_app O), Hx, (replay_doc_app O), Hrb.
-    apply Htr. eapply (seq_ex_weaken O); [|exact Hs'']. intros t1 c1 r1 Hc. eapply same_marks_created; eassumption.
+    assert (Hnr : forall x, In x (rev (restore_block O sm3 t c cd ++ [mb])) -> is_rename O x = false).
+    { intros x Hx. apply in_rev in Hx. apply in_app_or in Hx. destruct Hx as [Hx|[<-|[]]]; [|reflexivity].
+      unfold restore_block in Hx. destruct (restore_rows O sm3 t c cd); [destruct Hx|]. destruct Hx as [<-|[]]. reflexivity. }
+    rewrite <- (app_nil_r D).
+    eapply (tr_okE_step s0 g g3 (m_undo O m) (restore_block O sm3 t c cd ++ [mb]) (m_sum O m) sm3 D no_cells []); [exact Htr| | |].
+    + exists s''. split.
+      * rewrite rev_app_distr. cbn [rev app]. change (mb :: rev (restore_block O sm3 t c cd)) with ([mb] ++ rev (restore_block O sm3 t c cd)).
+        rewrite (replay_doc_app O), Hrep_mb. exact Hrb.
+      * eapply (seq_ex_weaken O); [|exact Hs'']. intros t1 c1 r1 Hc. left. eapply same_marks_created; eassumption.
+    + intros t1 c1 r1 _ Hi. left. rewrite (img_list_nonrename O) in Hi by exact Hnr. eapply same_marks_created; eassumption.
+    + intros t1 c1 r1 Hi. exfalso. eapply (img_list_empty O); [|exact Hi]. intros ? ? ? [].
   - exact Hwfg3.
   - exact Hwf2.
   - split; [|split].
@@ -759,8 +1029,10 @@ Proof.
         destruct Hd as [Hba Hb]. apply (vnorm_enc O L).
         eapply (venc_trans O L); [apply (venc_sym O L); exact Hba|].
         eapply (venc_trans O L); [exact Hb | apply Hcells; exact Hr].
-  - intros t1 c1 r Hg. change (dget sm3 t1 c1 r <> None) in Hg. rewrite Hdget in Hg.
-    eapply (col_upd_existing O); [exact Hupd_s|]. apply Hlive. exact Hg.
+  - intros t1 c1 r Hg. rewrite Hdget in Hg. destruct (Hlive t1 c1 r Hg) as [T1 [C1 [Q1 [Q2 Q3]]]].
+    destruct (col_upd_key O _ _ _ _ _ _ _ _ _ _ _ _ Hupd_s Q1 Q2) as [T1' [C1' [Q1' [Q2' Qr]]]].
+    exists T1', C1'. split; [exact Q1'|]. split; [exact Q2'|]. rewrite Qr.
+    destruct Hmarks as [_ [_ [_ M4]]]. rewrite <- M4. exact Q3.
   - rewrite app_assoc. eapply redo_app; [|exact Hrep3]. eapply redo_snoc; [exact Hredo | exact Hag].
 Qed.
 
@@ -858,8 +1130,8 @@ Definition modflush_events (t c : name) (mi : modinfo) (ochs : option (list (cha
   Doc O (ModifyColumn O t c mi) :: match ochs with Some chs => [Calc O t c chs] | None => [] end ++ [FlushCol O t c].
 
 Lemma gi_modflush : forall s0 g m t c mi ochs m3,
-  gi s0 g m -> modflush_okb m t c mi ochs = true -> steps O m (modflush_events t c mi ochs) = Ok m3 ->
-  exists g3, gi s0 g3 m3.
+  gi s0 g D m -> modflush_okb m t c mi ochs = true -> steps O m (modflush_events t c mi ochs) = Ok m3 ->
+  exists g3, gi s0 g3 D m3.
 Proof.
   intros s0 g m t c mi ochs m3 Hgi Hok H. unfold modflush_okb in Hok.
   destruct (find_table O (m_doc O m) t) as [T|] eqn:Ef; [|discriminate].
@@ -874,7 +1146,7 @@ Proof.
   destruct (modify_upd O _ t c mi s1 u ops T C Ha Ef Ec H1) as [-> [-> Hupd1]]. cbn [fold_left] in *.
   destruct Hgi as [Htr Hwfg Hwfs [Hnames [Hkeys Hafter]] Hrel Hlive Hredo].
   pose proof (apply_doc_wf O L _ _ _ _ Hwfs Ha) as Hwf1.
-  pose proof (mkGI s0 g m Htr Hwfg Hwfs (conj Hnames (conj Hkeys Hafter)) Hrel Hlive Hredo) as Hgi.
+  pose proof (mkGI s0 g D m Htr Hwfg Hwfs (conj Hnames (conj Hkeys Hafter)) Hrel Hlive Hredo) as Hgi.
   destruct ochs as [chs|].
   - (* with a conversion delta *)
     cbn [app steps] in H.
@@ -950,7 +1222,7 @@ Qed.
 
 
 Lemma gi_flushcol_nil : forall s0 g m m' t c,
-  gi s0 g m -> no_delta_entry (m_sum O m) t c = true -> step O m (FlushCol O t c) = Ok m' -> gi s0 g m'.
+  gi s0 g D m -> no_delta_entry (m_sum O m) t c = true -> step O m (FlushCol O t c) = Ok m' -> gi s0 g D m'.
 Proof.
   intros s0 g m m' t c Hgi Hno H. cbn [step] in H.
   destruct (rev (m_undo O m)) as [|last before_rev] eqn:Er; [discriminate|].
@@ -1042,6 +1314,55 @@ Proof.
   specialize (H _ (delta_get_In _ _ _ E)). cbn [fst] in H. rewrite (touch_touchb _ _ _ _ Ht) in H. discriminate.
 Qed.
 
+(* the pending cells an action touches, and what becomes of a list of cells along a list of (undo) actions *)
+Definition touched_pending (a : action) (sm : summary) : list cell :=
+  flat_map (fun td => flat_map (fun cd => flat_map (fun ch : change O =>
+     if touchb a (fst td) (fst cd) (fst ch) then [(fst td, fst cd, fst ch)] else []) (snd cd)) (td_deltas O (snd td)))
+           (sm_tables O sm).
+
+Lemma touched_pending_sound : forall a sm t c r,
+  pending O sm t c r -> touch O a t c r -> In (t, c, r) (touched_pending a sm).
+Proof.
+  intros a sm t c r Hp Ht. unfold pending in Hp. destruct (delta_get O (delta_of O sm t c) r) as [x|] eqn:E; [|congruence].
+  unfold delta_of in E. unfold touched_pending.
+  destruct (td_find O (sm_tables O sm) t) as [td|] eqn:Et; [|discriminate].
+  destruct (cd_find O (td_deltas O td) c) as [cd|] eqn:Ec; [|discriminate].
+  apply in_flat_map. exists (t, td). split; [apply td_find_In; exact Et|]. cbn [fst snd].
+  apply in_flat_map. exists (c, cd). split; [apply cd_find_In; exact Ec|]. cbn [fst snd].
+  apply in_flat_map. exists (r, x). split; [apply delta_get_In; exact E|]. cbn [fst].
+  rewrite (touch_touchb _ _ _ _ Ht). left. reflexivity.
+Qed.
+
+Definition cell_eqb (x y : cell) : bool :=
+  name_eqb (fst (fst x)) (fst (fst y)) && name_eqb (snd (fst x)) (snd (fst y)) && Z.eqb (snd x) (snd y).
+
+Definition img1 (a : action) (l : list cell) : list cell :=
+  match a with
+  | RenameColumn _ t old new =>
+      l ++ map (fun x : cell => if name_eqb (fst (fst x)) t && name_eqb (snd (fst x)) old then (t, new, snd x) else x) l
+  | RenameTable _ old new =>
+      l ++ map (fun x : cell => if name_eqb (fst (fst x)) old then (new, snd (fst x), snd x) else x) l
+  | _ => l
+  end.
+
+Fixpoint imgL (acts : list action) (l : list cell) : list cell :=
+  match acts with [] => l | a :: rest => imgL rest (img1 a l) end.
+
+Lemma img1_sound : forall a l t c r, img O a (inD l) t c r -> inD (img1 a l) t c r.
+Proof.
+  intros a l t c r H. destruct a; cbn [img img1] in *; try exact H; unfold inD in *; apply in_or_app.
+  - destruct H as [[-> [-> Hx]]|[_ Hx]]; [right | left; exact Hx].
+    apply in_map_iff. exists (t0, old, r). split; [|exact Hx]. cbn. rewrite !name_eqb_refl. reflexivity.
+  - destruct H as [[-> Hx]|[_ Hx]]; [right | left; exact Hx].
+    apply in_map_iff. exists (old, c, r). split; [|exact Hx]. cbn. rewrite name_eqb_refl. reflexivity.
+Qed.
+
+Lemma imgL_sound : forall acts l t c r, img_list O acts (inD l) t c r -> inD (imgL acts l) t c r.
+Proof.
+  induction acts as [|a rest IH]; intros l t c r H; cbn [img_list imgL] in *; [exact H|].
+  apply IH. eapply (img_list_mono O); [|exact H]. intros t1 c1 r1 H1. apply img1_sound. exact H1.
+Qed.
+
 Definition rename_okb (a : action) : bool :=
   match a with
   | RenameColumn _ t old new => negb (is_defunct new)
@@ -1049,13 +1370,17 @@ Definition rename_okb (a : action) : bool :=
   | _ => false
   end.
 
-Definition mixed_event_okb (m : mstate O) (e : event O) : bool :=
+(* one event of the mixed phase: None = outside the class; Some D' = the cells left to front-inserted restores *)
+Definition mixed_event_D (m : mstate O) (D0 : list cell) (e : event O) : option (list cell) :=
   match e with
-  | Calc _ t c chs => calc_event_okb O m t c chs
-  | Doc _ a => rename_okb a ||
-                (negb (is_rename O a) && avoidb a (m_sum O m) && no_loss_b O a (m_doc O m) && act_names_okb O a)
-  | FlushCol _ t c => no_delta_entry (m_sum O m) t c
-  | FlushAll _ => false
+  | Calc _ t c chs => if calc_event_okb O m t c chs then Some D0 else None
+  | Doc _ a =>
+      if rename_okb a then Some D0
+      else if negb (is_rename O a) && (is_rmrec a || avoidb a (m_sum O m)) && no_loss_b O a (m_doc O m) && act_names_okb O a
+           then Some (D0 ++ imgL (rev (m_undo O m)) (touched_pending a (m_sum O m)))
+           else None
+  | FlushCol _ t c => if no_delta_entry (m_sum O m) t c then Some D0 else None
+  | FlushAll _ => None
   end.
 
 Lemma calc_event_okb_sound : forall m t c chs, calc_event_okb O m t c chs = true -> calc_event_ok O m t c chs.
@@ -1065,22 +1390,29 @@ Proof.
   destruct (find_col O (t_cols O T) c) as [C|]; [|discriminate]. apply calc_okb_sound. exact H1.
 Qed.
 
-Lemma gi_event : forall s0 g m m' e,
-  gi s0 g m -> mixed_event_okb m e = true -> step O m e = Ok m' -> exists g', gi s0 g' m'.
+Lemma gi_event : forall s0 g m m' e D',
+  gi s0 g D m -> mixed_event_D m D e = Some D' -> step O m e = Ok m' -> exists g', gi s0 g' D' m'.
 Proof.
-  intros s0 g m m' e Hgi Hok H. destruct e as [a|t c chs|t c|]; try discriminate.
-  - cbn [mixed_event_okb] in Hok. apply orb_true_iff in Hok. destruct Hok as [Hok|Hok].
-    + destruct a; try discriminate; cbn [rename_okb] in Hok; apply negb_true_iff in Hok.
-      * exact (gi_rename_col _ _ _ _ _ _ _ Hgi Hok H).
-      * exact (gi_rename_table _ _ _ _ _ _ Hgi Hok H).
-    + apply andb_true_iff in Hok. destruct Hok as [Hok H4]. apply andb_true_iff in Hok. destruct Hok as [Hok H3].
-      apply andb_true_iff in Hok. destruct Hok as [H1 H2]. apply negb_true_iff in H1.
-      eapply gi_doc_frame; try eassumption.
-      * apply avoidb_sound. exact H2.
+  intros s0 g m m' e D' Hgi Hok H. destruct e as [a|t c chs|t c|]; try discriminate; cbn [mixed_event_D] in Hok.
+  - destruct (rename_okb a) eqn:Ern.
+    + inversion Hok; subst D'. destruct a; try discriminate; cbn [rename_okb] in Ern; apply negb_true_iff in Ern.
+      * exact (gi_rename_col _ _ _ _ _ _ _ Hgi Ern H).
+      * exact (gi_rename_table _ _ _ _ _ _ Hgi Ern H).
+    + destruct (negb (is_rename O a) && (is_rmrec a || avoidb a (m_sum O m)) && no_loss_b O a (m_doc O m) && act_names_okb O a) eqn:Eok; [|discriminate].
+      inversion Hok; subst D'; clear Hok.
+      apply andb_true_iff in Eok. destruct Eok as [Eok H4]. apply andb_true_iff in Eok. destruct Eok as [Eok H3].
+      apply andb_true_iff in Eok. destruct Eok as [H1 H2]. apply negb_true_iff in H1.
+      eapply (gi_doc_frame s0 g m m' a); try eassumption.
+      * intros t c r Ht Hd. apply orb_true_iff in H2. destruct H2 as [H2|H2]; [exact H2|].
+        exfalso. apply Hd. apply (avoidb_sound _ _ H2). exact Ht.
       * apply (no_loss_b_sound O). exact H3.
       * apply (act_names_okb_sound O). exact H4.
-  - exists g. eapply gi_calc; [exact Hgi | apply calc_event_okb_sound; exact Hok | exact H].
-  - exists g. eapply gi_flushcol_nil; eassumption.
+      * intros t c r Hi. apply imgL_sound. eapply (img_list_mono O); [|exact Hi].
+        intros t1 c1 r1 [Hp Ht]. apply touched_pending_sound; assumption.
+  - destruct (calc_event_okb O m t c chs) eqn:Ec; [|discriminate]. inversion Hok; subst D'.
+    exists g. eapply gi_calc; [exact Hgi | apply calc_event_okb_sound; exact Ec | exact H].
+  - destruct (no_delta_entry (m_sum O m) t c) eqn:En; [|discriminate]. inversion Hok; subst D'.
+    exists g. eapply gi_flushcol_nil; eassumption.
 Qed.
 
 (* several events that are ONE step of the invariant (doModifyColumn) *)
@@ -1098,7 +1430,7 @@ Definition macro_of (m : mstate O) (es : list (event O)) : option (list (event O
 Lemma macro_of_sound : forall m es mac rest,
   macro_of m es = Some (mac, rest) ->
   es = mac ++ rest /\ (length rest < length es)%nat /\
-  forall s0 g m', gi s0 g m -> steps O m mac = Ok m' -> exists g', gi s0 g' m'.
+  forall s0 g m', gi s0 g D m -> steps O m mac = Ok m' -> exists g', gi s0 g' D m'.
 Proof.
   intros m es mac rest H. unfold macro_of in H.
   destruct es as [|[a| | |] es1]; try discriminate. destruct a; try discriminate.
@@ -1117,87 +1449,190 @@ Proof.
     split; [reflexivity|]. split; [cbn; lia|]. intros s0 g m' Hgi Hs. eapply gi_modflush; eassumption.
 Qed.
 
-Fixpoint mixed_okb_n (n : nat) (m : mstate O) (es : list (event O)) : bool :=
+End Steps.
+
+(* the whole phase: None = outside the class, Some D = inside, with the cells left to the front-inserted restores *)
+Fixpoint mixed_D (n : nat) (m : mstate O) (D : list cell) (es : list (event O)) : option (list cell) :=
   match es with
-  | [] => true
+  | [] => Some D
   | e :: rest =>
       match n with
-      | 0%nat => false
+      | 0%nat => None
       | S n' =>
           match macro_of m es with
-          | Some (mac, rest') => match steps O m mac with Ok m' => mixed_okb_n n' m' rest' | Err _ => true end
-          | None => mixed_event_okb m e && match step O m e with Ok m' => mixed_okb_n n' m' rest | Err _ => true end
+          | Some (mac, rest') => match steps O m mac with Ok m' => mixed_D n' m' D rest' | Err _ => Some D end
+          | None =>
+              match mixed_event_D m D e with
+              | Some D' => match step O m e with Ok m' => mixed_D n' m' D' rest | Err _ => Some D' end
+              | None => None
+              end
           end
       end
   end.
 
-Definition mixed_okb (m : mstate O) (es : list (event O)) : bool := mixed_okb_n (length es) m es.
-
-Lemma mixed_phase_n : forall n es s0 g m m',
-  gi s0 g m -> mixed_okb_n n m es = true -> steps O m es = Ok m' -> exists g', gi s0 g' m'.
+Lemma mixed_phase : forall n es s0 g D m m' Df,
+  gi s0 g D m -> mixed_D n m D es = Some Df -> steps O m es = Ok m' -> exists g', gi s0 g' Df m'.
 Proof.
-  induction n as [|n IH]; intros es s0 g m m' Hgi Hok H.
-  - destruct es; [|discriminate]. cbn in H. inversion H; subst. eauto.
-  - destruct es as [|e rest]; [cbn in H; inversion H; subst; eauto|].
-    cbn [mixed_okb_n] in Hok. destruct (macro_of m (e :: rest)) as [[mac rest']|] eqn:Em.
-    + destruct (macro_of_sound _ _ _ _ Em) as [Hes [_ Hmac]]. rewrite Hes, (steps_app O) in H.
+  induction n as [|n IH]; intros es s0 g D m m' Df Hgi Hok H.
+  - destruct es; [|discriminate]. cbn in H, Hok. inversion H; inversion Hok; subst. eauto.
+  - destruct es as [|e rest]; [cbn in H, Hok; inversion H; inversion Hok; subst; eauto|].
+    cbn [mixed_D] in Hok. destruct (macro_of m (e :: rest)) as [[mac rest']|] eqn:Em.
+    + destruct (macro_of_sound D _ _ _ _ Em) as [Hes [_ Hmac]]. rewrite Hes, (steps_app O) in H.
       destruct (steps O m mac) as [m1|] eqn:Es; [|discriminate].
       destruct (Hmac _ _ _ Hgi eq_refl) as [g1 Hg1]. eapply IH; eassumption.
-    + apply andb_true_iff in Hok. destruct Hok as [He Hrest]. cbn [steps] in H.
+    + destruct (mixed_event_D m D e) as [D1|] eqn:Ee; [|discriminate]. cbn [steps] in H.
       destruct (step O m e) as [m1|] eqn:Es; cbn [bind] in H; [|discriminate].
-      destruct (gi_event _ _ _ _ _ Hgi He Es) as [g1 Hg1]. eapply IH; eassumption.
+      destruct (gi_event D _ _ _ _ _ _ Hgi Ee Es) as [g1 Hg1]. eapply IH; eassumption.
 Qed.
 
-Lemma mixed_phase : forall es s0 g m m',
-  gi s0 g m -> mixed_okb m es = true -> steps O m es = Ok m' -> exists g', gi s0 g' m'.
-Proof. intros es s0 g m m'. apply mixed_phase_n. Qed.
+(* ------------------------------------------------------------------------------------------------ *)
+(* the flush that ends the bundle *)
 
-(* the flush at the end of the bundle, from the invariant *)
-Lemma gi_flush : forall s0 g m,
-  gi s0 g m ->
-  flush_all O (m_sum O m) (m_stored O m, m_undo O m) =
-    Ok (m_stored O m ++ all_sblocks O (m_sum O m), m_undo O m ++ all_blocks O (m_sum O m)) /\
-  (exists s'', replay_doc O (rev (m_undo O m ++ all_blocks O (m_sum O m))) (m_doc O m) = Ok s'' /\ seq O s'' s0) /\
-  (forall s1, seq O s1 s0 ->
-     exists s2, replay_doc O (m_stored O m ++ all_sblocks O (m_sum O m)) s1 = Ok s2 /\ seq O s2 (m_doc O m)).
+Definition cellvb (s : state) (x : cell) : bool :=
+  match cellv O s (fst (fst x)) (snd (fst x)) (snd x) with Some _ => true | None => false end.
+
+(* a front-inserted restore is fine when it puts values of the START document into cells of the start document *)
+Definition front_okb (s0 : state) (a : action) : bool :=
+  match a with
+  | BulkUpdateRecord _ t rows [(c, vals)] =>
+      match find_table O s0 t with
+      | Some T0 =>
+          match find_col O (t_cols O T0) c with
+          | Some C0 =>
+              Nat.eqb (length vals) (length rows) && negb (isnil rows) && forallb (fun r => zmem r (t_rows O T0)) rows &&
+              forallb (fun r => match set_val O rows vals r with Some v => venc O v (col_get O C0 r) | None => false end) rows
+          | None => false
+          end
+      | None => false
+      end
+  | _ => false
+  end.
+
+Definition written_by (a : action) (x : cell) : bool :=
+  match a with
+  | BulkUpdateRecord _ t rows [(c, _)] => name_eqb (fst (fst x)) t && name_eqb (snd (fst x)) c && zmem (snd x) rows
+  | _ => false
+  end.
+
+Definition fronts_okb (s0 : state) (FR : list action) (D : list cell) : bool :=
+  forallb (front_okb s0) FR && forallb (fun x => negb (cellvb s0 x) || existsb (fun a => written_by a x) FR) D.
+
+Lemma replay_fronts : forall s0 FRl (X : cellset) x,
+  wf_state O s0 -> forallb (front_okb s0) FRl = true -> seq_ex O X x s0 ->
+  exists x', replay_doc O FRl x = Ok x' /\
+             seq_ex O (fun t c r => X t c r /\ forall a, In a FRl -> written_by a (t, c, r) = false) x' s0.
 Proof.
-  intros s0 g m [Htr Hwfg Hwfs [Hnames [Hkeys Hafter]] Hrel Hlive Hredo].
-  assert (Hlive_d : live_in O g (m_sum O m)).
-  { intros t c r Hg. eapply existing_calc_rel; [exact Hrel | apply Hlive; exact Hg]. }
-  assert (Hok : all_deltas_ok O (m_sum O m)).
-  { intros t td c cd Htd Hcd Hne.
-    assert (Hdo : delta_of O (m_sum O m) t c = cd) by (unfold delta_of; rewrite Htd, Hcd; reflexivity).
-    destruct cd as [|[r0 x0] cd0] eqn:Ecd; [congruence|].
-    assert (Hg0 : delta_get O (delta_of O (m_sum O m) t c) r0 <> None) by (rewrite Hdo; cbn; rewrite Z.eqb_refl; discriminate).
-    destruct (Hlive_d t c r0 Hg0) as [Td [Cd [Hft [Hfc _]]]].
-    destruct (Hnames _ _ Hft) as [Hdt Hdc]. split; [exact Hdt|]. split; [exact (Hdc _ _ Hfc)|].
-    intros r Hg. rewrite <- Hdo in Hg. destruct (Hlive_d t c r Hg) as [Td' [Cd' [Hft' [_ Hr']]]].
-    eapply Hafter; eassumption. }
+  intros s0 FRl. induction FRl as [|a rest IH]; intros X x Hwf Hok Hx.
+  - exists x. split; [reflexivity|]. eapply (seq_ex_weaken O); [|exact Hx]. intros t c r H. split; [exact H | intros a []].
+  - cbn [forallb] in Hok. apply andb_true_iff in Hok. destruct Hok as [Ha Hrest].
+    unfold front_okb in Ha. destruct a; try discriminate. destruct cols as [|[c vals] [|? ?]]; try discriminate.
+    destruct (find_table O s0 t) as [T0|] eqn:Ef0; [|discriminate].
+    destruct (find_col O (t_cols O T0) c) as [C0|] eqn:Ec0; [|discriminate].
+    apply andb_true_iff in Ha. destruct Ha as [Ha A4]. apply andb_true_iff in Ha. destruct Ha as [Ha A3].
+    apply andb_true_iff in Ha. destruct Ha as [A1 A2]. apply Nat.eqb_eq in A1. apply negb_true_iff in A2.
+    rewrite forallb_forall in A3, A4.
+    destruct (front_one O L X x s0 t c rows vals T0 C0 Hx Hwf Ef0 Ec0 A1) as [x1 [o1 [Hstep Hx1]]].
+    { destruct rows; [discriminate | discriminate]. }
+    { intros r Hr. apply zmem_In. apply A3. exact Hr. }
+    { intros r v Hr Hsv. specialize (A4 r Hr). rewrite Hsv in A4. exact A4. }
+    destruct (IH _ x1 Hwf Hrest Hx1) as [x' [Hrep Hx']]. exists x'. split.
+    + cbn [replay_doc]. rewrite Hstep. cbn [bind fst]. exact Hrep.
+    + eapply (seq_ex_weaken O); [|exact Hx']. intros t1 c1 r1 [[HX Hnw] Hall]. split; [exact HX|].
+      intros a [<-|Hin]; [|apply Hall; exact Hin]. cbn [written_by fst snd].
+      destruct (name_eqb t1 t && name_eqb c1 c && zmem r1 rows) eqn:E; [|reflexivity]. exfalso. apply Hnw.
+      apply andb_true_iff in E. destruct E as [E E3]. apply andb_true_iff in E. destruct E as [E1 E2].
+      apply name_eqb_eq in E1, E2. apply zmem_In in E3. repeat split; assumption.
+Qed.
+
+Lemma fronts_fix : forall s0 FR D x,
+  wf_state O s0 -> fronts_okb s0 FR D = true -> seq_ex O (inD D) x s0 ->
+  exists x', replay_doc O (rev FR) x = Ok x' /\ seq O x' s0.
+Proof.
+  intros s0 FR D x Hwf Hok Hx. unfold fronts_okb in Hok. apply andb_true_iff in Hok. destruct Hok as [H1 H2].
+  assert (H1r : forallb (front_okb s0) (rev FR) = true).
+  { rewrite forallb_forall in *. intros a Ha. apply H1. apply in_rev. exact Ha. }
+  destruct (replay_fronts s0 (rev FR) _ x Hwf H1r Hx) as [x' [Hrep Hx']]. exists x'. split; [exact Hrep|].
+  eapply (seq_ex_restrict O); [exact Hx'|]. intros t c r Hex [Hd Hnw]. exfalso.
+  rewrite forallb_forall in H2. specialize (H2 (t, c, r) Hd). apply orb_true_iff in H2. destruct H2 as [H2|H2].
+  - apply negb_true_iff in H2. unfold cellvb in H2. cbn [fst snd] in H2.
+    pose proof (existing_seq O _ _ _ _ _ _ Hx' Hex) as Hex0. apply (cellv_existing O) in Hex0.
+    destruct (cellv O s0 t c r); [discriminate | congruence].
+  - apply existsb_exists in H2. destruct H2 as [a [Ha Hw]]. rewrite (Hnw a) in Hw; [discriminate|]. apply in_rev. rewrite rev_involutive. exact Ha.
+Qed.
+
+Lemma gi_flush : forall s0 g D m,
+  gi s0 g D m -> wf_state O s0 -> fronts_okb s0 (all_fronts O (m_sum O m)) D = true ->
+  flush_all O (m_sum O m) (m_stored O m, m_undo O m) =
+    Ok (m_stored O m ++ all_sblocks O (prune O (m_sum O m)),
+        all_fronts O (m_sum O m) ++ m_undo O m ++ all_blocks O (prune O (m_sum O m))) /\
+  (exists s'', replay_doc O (rev (all_fronts O (m_sum O m) ++ m_undo O m ++ all_blocks O (prune O (m_sum O m)))) (m_doc O m) = Ok s'' /\
+               seq O s'' s0) /\
+  (forall s1, seq O s1 s0 ->
+     exists s2, replay_doc O (m_stored O m ++ all_sblocks O (prune O (m_sum O m))) s1 = Ok s2 /\ seq O s2 (m_doc O m)).
+Proof.
+  intros s0 g D m [Htr Hwfg Hwfs Hstruct Hrel Hlive Hredo] Hwf0 Hfr.
+  set (sm := m_sum O m) in *. set (s := m_doc O m) in *. set (smp := prune O sm).
+  pose proof (calc_rel_seq_ex O g sm s Hrel) as Hseq.
+  pose proof (struct_ok_seq_ex O _ g s sm Hseq Hstruct) as [Hnames_s [Hkeys_s Hafter_s]].
+  destruct Hstruct as [Hnames [Hkeys Hafter]].
+  (* on the cells that exist the pruned summary holds the same deltas *)
+  assert (Hdp : forall t c r, existing O s t c r -> delta_get O (delta_of O smp t c) r = delta_get O (delta_of O sm t c) r).
+  { intros t c r [T [C [Hf [Hc Hr]]]]. unfold smp. rewrite (dget_prune O). destruct (Hnames_s _ _ Hf) as [Hdt Hdc].
+    rewrite Hdt, (Hdc _ _ Hc). cbn [orb]. unfold keepr. pose proof (Hafter_s _ _ _ Hf Hr) as Ha.
+    destruct (row_after O sm t r) as [[|]|]; try reflexivity. congruence. }
+  assert (Hrelp : calc_rel O g smp s).
+  { apply (calc_rel_of O).
+    - eapply (seq_ex_restrict O); [exact Hseq|]. intros t c r Hex Hp. unfold pending in *. rewrite Hdp by exact Hex. exact Hp.
+    - intros t c r i v ig vg b a Hcs Hcg Hd.
+      assert (Hex : existing O s t c r) by (apply (cellv_existing O); rewrite Hcs; discriminate).
+      rewrite Hdp in Hd by exact Hex.
+      destruct (calc_rel_cellv O g sm s t c r i v Hrel Hcs) as [vg0 [Hcg0 Hm]]. rewrite Hcg in Hcg0. inversion Hcg0; subst.
+      rewrite Hd in Hm. exact Hm. }
+  assert (Hlivep : deltas_live O smp s).
+  { intros t c r Hd. unfold smp in Hd. rewrite (dget_prune O) in Hd.
+    destruct (is_defunct t || is_defunct c); [congruence|]. unfold keepr in Hd.
+    destruct (Hlive t c r) as [T [C [Hf [Hc [Hr|Hr]]]]].
+    - unfold dget. destruct (row_after O sm t r) as [[|]|]; congruence.
+    - exists T, C. auto.
+    - rewrite Hr in Hd. congruence. }
+  assert (Hlive_d : live_in O g smp).
+  { intros t c r Hg. eapply existing_calc_rel; [exact Hrelp | apply Hlivep; exact Hg]. }
   split; [|split].
-  - rewrite (flush_all_undo O (m_sum O m) (m_stored O m) (m_undo O m) Hok). reflexivity.
-  - rewrite rev_app_distr, (replay_doc_app O).
-    destruct (replay_all_blocks O L g (m_sum O m) (m_doc O m)) as [s1 [Hr1 Hs1]].
-    + apply (near_of_calc_rel O). exact Hrel.
+  - apply (flush_all_gen O).
+  - rewrite !rev_app_distr, <- app_assoc, (replay_doc_app O).
+    destruct (replay_all_blocks O L g smp s) as [s1 [Hr1 Hs1]].
+    + apply (near_of_calc_rel O). exact Hrelp.
     + exact Hwfg.
     + eapply (befores_of_calc_rel O); eassumption.
     + exact Hlive_d.
-    + rewrite Hr1. apply Htr. exact Hs1.
+    + rewrite Hr1, (replay_doc_app O). destruct (Htr no_cells s1) as [s2 [Hr2 Hs2]].
+      { eapply (seq_ex_weaken O); [|exact Hs1]. intros t c r Hc. left. apply (prune_created O). exact Hc. }
+      rewrite Hr2. eapply fronts_fix; [exact Hwf0 | exact Hfr|].
+      eapply (seq_ex_weaken O); [|exact Hs2]. intros t c r [Hi|Hd]; [|exact Hd].
+      exfalso. eapply (img_list_empty O); [|exact Hi]. intros ? ? ? [].
   - intros s1 Hs1. rewrite (replay_doc_app O).
     destruct (Hredo s1 Hs1) as [sd' [Hrd Hsd]]. rewrite Hrd.
     eapply (replay_all_sblocks O L); eassumption.
 Qed.
 
-(* the whole bundle is one mixed phase: doc actions (any lossless one while nothing is pending, renames always), calc
-   deltas, and the ModifyColumn / conversion delta / per-column flush triples of doModifyColumn *)
+(* the whole bundle is one mixed phase, and the restores that the final flush inserts at the front of the undo list put
+   values of the start document into the cells left to them *)
 Definition bundle_ok3 (s : state) (es : list (event O)) : bool :=
-  wf_stateb O s && names_okb O s && mixed_okb (m_init O s) es.
+  wf_stateb O s && names_okb O s &&
+  match mixed_D (length es) (m_init O s) [] es with
+  | Some Df => match steps O (m_init O s) es with
+               | Ok m => fronts_okb s (all_fronts O (m_sum O m)) Df
+               | Err _ => true
+               end
+  | None => false
+  end.
 
-Lemma gi_init : forall s, wf_state O s -> names_ok O s -> gi s s (m_init O s).
+Lemma gi_init : forall s, wf_state O s -> names_ok O s -> gi s s [] (m_init O s).
 Proof.
-  intros s Hwf Hn. destruct (docs_inv_init O s Hwf Hn) as [Htr _ Hstr _].
+  intros s Hwf Hn. destruct (docs_inv_init O s Hwf Hn) as [_ _ Hstr _].
   assert (Hq : quiet (sum_empty O)) by (intros t c r; reflexivity).
   constructor; cbn [m_init m_doc m_undo m_sum m_stored].
-  - exact Htr.
+  - apply tr_okE_init.
   - exact Hwf.
   - exact Hwf.
   - exact Hstr.
@@ -1207,12 +1642,14 @@ Proof.
 Qed.
 
 Lemma bundle_ok3_gi : forall s es m,
-  bundle_ok3 s es = true -> steps O (m_init O s) es = Ok m -> exists g, gi s g m.
+  bundle_ok3 s es = true -> steps O (m_init O s) es = Ok m ->
+  wf_state O s /\ exists g Df, gi s g Df m /\ fronts_okb s (all_fronts O (m_sum O m)) Df = true.
 Proof.
   intros s es m Hok H. unfold bundle_ok3 in Hok.
   apply andb_true_iff in Hok. destruct Hok as [Hok H3]. apply andb_true_iff in Hok. destruct Hok as [H1 H2].
-  apply (wf_stateb_sound O) in H1. apply (names_okb_sound O) in H2.
-  eapply mixed_phase; [apply gi_init; eassumption | exact H3 | exact H].
+  apply (wf_stateb_sound O) in H1. apply (names_okb_sound O) in H2. split; [exact H1|].
+  destruct (mixed_D (length es) (m_init O s) [] es) as [Df|] eqn:Ed; [|discriminate]. rewrite H in H3.
+  destruct (mixed_phase _ _ _ _ _ _ _ _ (gi_init s H1 H2) Ed H) as [g Hg]. exists g, Df. auto.
 Qed.
 
 Theorem bundle_ok3_undo : forall s es s' out,
@@ -1221,8 +1658,8 @@ Theorem bundle_ok3_undo : forall s es s' out,
 Proof.
   intros s es s' out Hok H. unfold run in H. fold (m_init O s) in H. rewrite (steps_app O) in H.
   destruct (steps O (m_init O s) es) as [m|] eqn:Em; [|discriminate].
-  destruct (bundle_ok3_gi _ _ _ Hok Em) as [g Hgi].
-  destruct (gi_flush _ _ _ Hgi) as [Hfl [Hundo _]].
+  destruct (bundle_ok3_gi _ _ _ Hok Em) as [Hwf [g [Df [Hgi Hfr]]]].
+  destruct (gi_flush _ _ _ _ Hgi Hwf Hfr) as [Hfl [Hundo _]].
   cbn [steps step] in H. rewrite Hfl in H. cbn in H. inversion H; subst s' out; clear H. cbn [o_undo]. exact Hundo.
 Qed.
 
@@ -1233,9 +1670,9 @@ Theorem bundle_ok3_redo : forall s es s' out s0,
 Proof.
   intros s es s' out s0 Hok H Hu. unfold run in H. fold (m_init O s) in H. rewrite (steps_app O) in H.
   destruct (steps O (m_init O s) es) as [m|] eqn:Em; [|discriminate].
-  destruct (bundle_ok3_gi _ _ _ Hok Em) as [g Hgi].
-  destruct (gi_flush _ _ _ Hgi) as [Hfl [[s0' [Hundo Hs0]] Hredo]].
-  cbn [steps step] in H. rewrite Hfl in H. cbn in H. inversion H; subst s' out; clear H. cbn [o_undo o_stored] in *.
+  destruct (bundle_ok3_gi _ _ _ Hok Em) as [Hwf [g [Df [Hgi Hfr]]]].
+  destruct (gi_flush _ _ _ _ Hgi Hwf Hfr) as [Hfl [[s0' [Hundo Hs0]] Hredo]].
+  cbn [steps step] in H. rewrite Hfl in H. cbn [bind fst snd m_doc m_stored m_undo] in H. inversion H; subst s' out; clear H. cbn [o_undo o_stored] in *.
   assert (s0' = s0) by congruence. subst s0'. apply Hredo. exact Hs0.
 Qed.
 
